@@ -10,6 +10,8 @@ import (
 func init() {
 	f := "internal/wat/watutil/wat2c/wat2c_func.go"
 	register(&Property{ID: "C03", Run: runC03, Mutants: []Mutant{
+		{Name: "data literal: 'F' after a hex escape not split off", File: "internal/wat/watutil/wat2c/wat2c_code.go", Old: "if prevIsHexEscape && x <= 'F' {", New: "if prevIsHexEscape && x < 'F' {", Expect: "c-data-literal"},
+		{Name: "data literal: double quote written raw", File: "internal/wat/watutil/wat2c/wat2c_code.go", Old: "\t\t\t\tsb.WriteString(\"\\\\\\\"\")", New: "\t\t\t\tsb.WriteString(\"\\\"\")", Expect: "c-data-literal"},
 		{Name: "i32.lt_u compares signed", File: f, Old: "R%d.i32 = ((uint32_t)(R%d.i32)<(uint32_t)(R%d.i32))? 1: 0;", New: "R%d.i32 = (R%d.i32<R%d.i32)? 1: 0;", Expect: "c-signedness :: i32.lt_u"},
 		{Name: "i64.sub operands swapped", File: f, Old: "fmt.Fprintf(w, \"%sR%d.i64 = R%d.i64 - R%d.i64; // %s\\n\",\n\t\t\tindent, ret0, sp1, sp0,", New: "fmt.Fprintf(w, \"%sR%d.i64 = R%d.i64 - R%d.i64; // %s\\n\",\n\t\t\tindent, ret0, sp0, sp1,", Expect: "c-operand-order :: i64.sub"},
 		{Name: "i64.shr_s mask 31", File: f, Old: "R%d.i64 = R%d.i64 >> (((uint64_t)R%d.i64)&63);", New: "R%d.i64 = R%d.i64 >> (((uint64_t)R%d.i64)&31);", Expect: "c-shift-mask :: i64.shr_s"},
@@ -90,6 +92,7 @@ func runC03(c *Ctx) {
 	if tk == nil || pk == nil {
 		return
 	}
+	c03DataLiteral(c, p, pk)
 	by := stackEffectRules(c, p, "wat2c", pk, ins)
 	if by == nil {
 		return
